@@ -94,6 +94,30 @@ func c28HugeSizeField(data []byte, clamp bool) bool {
 				if clamp {
 					binary.BigEndian.PutUint32(data[i+8:], 0)
 				}
+				continue
+			}
+			// sample sizes: segmentFMP4MuxParts allocates sample_size bytes before reading the sample
+			if flags&0x200 != 0 {
+				o := i + 12
+				if flags&0x1 != 0 {
+					o += 4
+				}
+				if flags&0x4 != 0 {
+					o += 4
+				}
+				for k := uint32(0); k < count && o+int(per) <= len(data); k++ {
+					so := o
+					if flags&0x100 != 0 {
+						so += 4
+					}
+					if binary.BigEndian.Uint32(data[so:]) > 1<<25 {
+						found = true
+						if clamp {
+							binary.BigEndian.PutUint32(data[so:], 0)
+						}
+					}
+					o += int(per)
+				}
 			}
 		}
 	}
@@ -458,8 +482,10 @@ func c28Guarded(dir string, starts []time.Time, desc string) error {
 	case <-time.After(90 * time.Second):
 		var m runtime.MemStats
 		runtime.ReadMemStats(&m)
-		fmt.Printf("--- FAIL: C28: a handler is still running 90 s after the request (heap %d MB): no answer, unbounded work\ncase: %s\n",
-			m.HeapAlloc>>20, desc)
+		buf := make([]byte, 1<<17)
+		buf = buf[:runtime.Stack(buf, true)]
+		fmt.Printf("--- FAIL: C28: a handler is still running 90 s after the request (heap %d MB): no answer, unbounded work\ncase: %s\n%s\n",
+			m.HeapAlloc>>20, desc, buf)
 		kit.Flush()
 		os.Exit(1)
 		return nil
